@@ -12,7 +12,7 @@ def scenarios(rng: random.Random, n: int, thorough: bool):
     scs = []
     for i in range(n):
         mode = ["vertical", "downward", "slow", "zero_velocity", "high_station", "beyond_reach", "drop_limit", "alt_limit",
-                "vel_limit", "simultaneous"][i % 10]
+                "vel_limit", "simultaneous", "start_below_floor"][i % 11]
         p = shots.gen_shot(rng, winds=rng.choice([0, 1]), look=0.0)
         lim = {}
         rng_ft = rng.choice([900.0, 3000.0])
@@ -36,6 +36,15 @@ def scenarios(rng: random.Random, n: int, thorough: bool):
         elif mode == "beyond_reach":
             rng_ft = 60000.0
             p["rel_rad"] = math.radians(rng.choice([1.0, 10.0]))
+        elif mode == "start_below_floor":
+            # the launch point itself is already beyond a floor limit and the barrel points upward
+            p["rel_rad"] = math.radians(rng.choice([0.5, 3.0, 10.0]))
+            if rng.random() < 0.5:
+                p["alt_ft"] = rng.choice([-150.0, -400.0, 20.0])
+                lim = {"cMinimumAltitude": p["alt_ft"] + rng.choice([5.0, 130.0]), "cMinimumVelocity": 0.0}
+            else:
+                p["sight_in"] = 3.0
+                lim = {"cMaximumDrop": -0.1}
         elif mode == "drop_limit":
             lim = {"cMaximumDrop": rng.choice([0.0, -1.0, -5.5, -100.0])}
         elif mode == "alt_limit":
@@ -100,7 +109,7 @@ def run(chk: core.Check, replay=None) -> None:
     thorough = chk.tier == "thorough"
     loopsuite.design(chk, "C04")
     rng = random.Random(chk.seed * 19 + 4)
-    scs = scenarios(rng, 150 if thorough else 20, thorough)
+    scs = scenarios(rng, 165 if thorough else 22, thorough)
     outs, pairs = [], []
     tid = 0
     for sc in scs:
@@ -143,7 +152,7 @@ def run(chk: core.Check, replay=None) -> None:
     o = next((x for x in outs if x["outcome"] == "RangeError"), outs[0])
     chk.sample({"scenario": o["sc"], "outcome": o["outcome"], "reason": o.get("reason"), "tail_lines": o["lines"][-3:]})
     chk.require_strata(["limit_Vel", "limit_Drop", "limit_Alt", "completed", "paired_with_relaxed_limit", "mode_vertical",
-                        "mode_zero_velocity", "mode_beyond_reach", "several_limits_in_one_step"])
+                        "mode_zero_velocity", "mode_beyond_reach", "mode_start_below_floor", "several_limits_in_one_step"])
     chk.exhaustive = False
     chk.rule.append("design: Integrator.tla C04_* with every subset of violated limits per step and liveness under the gravity assumption; "
                     "code->spec: seeded real shots (vertical, downward, slow, zero-velocity, high station, beyond reach, each limit, "
